@@ -92,7 +92,7 @@ func c13Decl(k int) *decl.Decl {
 	return d
 }
 
-var c13Sections = []string{"", "Application Options", "application OPTIONS", "Grp", "GRP", "cmd", "cmd.Sub Group", "cmd.sub group", "cmd.sub", "Cmd", "cmd.nope", "sub", "Sub Group", "MixedCase", "mixedcase", "MixedCase.Mixed Group", "MixedCase.mixed group", "Inner", "cmd.", ".cmd", "Plain"}
+var c13Sections = []string{"", "Application Options", "application OPTIONS", "Grp", "GRP", "cmd", "cmd.Sub Group", "cmd.sub group", "cmd.sub", "Cmd", "cmd.nope", "sub", "Sub Group", "MixedCase", "mixedcase", "MixedCase.Mixed Group", "MixedCase.mixed group", "Inner", "cmd.", ".cmd", "Plain", " Grp "}
 var c13Names = []string{"Aa", "aa", "AA", "aA", "Bb", "bb", "BB", "Cc", "cc", "a", "b", "c", "A", "s", "Ss", "longonly", "Ll", "Dd", "dd", "ns.aa", "ns.ee", "ee", "e", "Ee", "Gg", "zz", "Ff", "ff", "Hh", "hh", "hname", "HNAME", "nope", "Xx", "Yy", "K", "m", "kk", "xx", "Ii", "mx", "ns.in.jj", "in.jj", "jj", "Jj", "Nn", "ll", "ns.pp", "pp", "Pp", "q"}
 
 func init() {
@@ -132,7 +132,7 @@ func init() {
 			return map[string]interface{}{"type": kind.T.Name, "ini": text, "as_defaults": asDefaults, "earlier_read_on_same_parser": warmIni}
 		})
 		// model: which option does the entry select?
-		cands, known := ref.SectionOptions(d, section, "Application Options")
+		cands, known := ref.SectionOptions(d, strings.TrimSpace(section), "Application Options")
 		var sel *decl.Opt
 		if known {
 			sel = ref.ResolveIniName(cands, name)
@@ -158,7 +158,7 @@ func init() {
 			other := ""
 			for _, cand := range []string{sel.Field, sel.LongNS, sel.Short, sel.IniName} {
 				if cand != "" && !strings.EqualFold(cand, name) {
-					if cs, ok := ref.SectionOptions(d, section, "Application Options"); ok && ref.ResolveIniName(cs, cand) == sel {
+					if cs, ok := ref.SectionOptions(d, strings.TrimSpace(section), "Application Options"); ok && ref.ResolveIniName(cs, cand) == sel {
 						other = cand
 						break
 					}
@@ -286,7 +286,7 @@ func init() {
 		ShardDepth: 2,
 		Body:       body,
 		Rule: "declaration whose names cross (A's long name = B's field name = C's ini-name up to case; the same field name in the parser, a namespaced group, a command and a sub-subcommand; short-only, long-only and no-ini options; an ini-name inside a command's subgroup) " +
-			"x 17 option types / value notations (incl. map values containing :\" in the middle, a 70000-byte value) (incl. map values written in INI quoting, some containing colons, against their unquoted command-line equivalent) x 21 section spellings (incl. a command path with an empty component) (incl. a namespaced group nested in a namespaced group, addressed by its own section) (incl. a command whose name has upper-case letters: command names are matched exactly, group descriptions case-insensitively) (global, group description in three casings, command, command.group in two casings, sub-subcommand path, wrong casings and unknown paths) x 51 entry names (every naming of every option in several casings, namespaced long names, unknown) " +
+			"x 17 option types / value notations (incl. map values containing :\" in the middle, a 70000-byte value) (incl. map values written in INI quoting, some containing colons, against their unquoted command-line equivalent) x 22 section spellings (incl. a header with blanks inside the brackets) (incl. a command path with an empty component) (incl. a namespaced group nested in a namespaced group, addressed by its own section) (incl. a command whose name has upper-case letters: command names are matched exactly, group descriptions case-insensitively) (global, group description in three casings, command, command.group in two casings, sub-subcommand path, wrong casings and unknown paths) x 51 entry names (every naming of every option in several casings, namespaced long names, unknown) " +
 			"x 1..3 repeated entries (also spread over two sections that reach the same option) x normal / as-defaults mode x {fresh parser, parser that has already read a file naming the same option by another of its names (a later read replaces, like a later command line)}; oracle: (a) the documented priority ini-name > field > namespaced long > short selects the option, unknown names/sections are errors, (b) differential: a fresh parser given the equivalent --name=value flags must end in the same option struct; " +
 			"distinct = distinct (type, section, name, repetitions, error class, options touched)",
 		Assumptions:  []string{"values without edge blanks", "a flag entry 'name = false' has no command-line equivalent and is not used"},
